@@ -6,11 +6,14 @@ from ..child import h64
 
 ALPHABETS = {
     # C16's alphabet, as the quantifier lists it
-    "C16": {"ticks": (60, 200)},
+    # (add with an explicit id includes adding an id again: a new job only if the old one was killed)
+    "C16": {"ticks": (60, 200), "readd": 1},
     # extended with wait / re-add / stats (+ finish by a third party, info updates)
     "C17": {"ticks": (60, 200, 4000), "finx": 1, "readd": 1, "wait": 1, "addwait": 1, "setinfo": 1,
             "addauto": 1},
-    "C18": {"ticks": (60, 200), "finx": 1, "readd": 1, "wait": 1, "restart": 1, "addauto": 1},
+    # restart with and without downtime (the clock moves while the server is stopped)
+    "C18": {"ticks": (60, 200), "finx": 1, "readd": 1, "wait": 1, "restart": 1, "addauto": 1,
+            "downtimes": (100,)},
 }
 
 
@@ -60,8 +63,9 @@ def run_history(prop, R, ops, choices, A, probes, lenient=False, want_enabled=No
     if prop == "C18":
         # control: the same history without the restart; only differences count for C18
         if any(o[0] == "restart" for o in ops):
-            ctl = qsched.execute([o for o in ops if o[0] != "restart"], choices=choices, probes=probes,
-                                 lenient=True)
+            ctl_ops = [(["advance", o[1]] if o[0] == "restart" else o) for o in ops
+                       if o[0] != "restart" or (len(o) > 1 and o[1])]
+            ctl = qsched.execute(ctl_ops, choices=choices, probes=probes, lenient=True)
             ctl_keys = {(p, k) for (p, k, _) in ctl.get("findings", [])}
             own = [(("C18", "after-restart:" + k, w) if p != "ENGINE" else (p, k, w))
                    for (p, k, w) in res["findings"] if (p, k) not in ctl_keys]
